@@ -16,7 +16,7 @@ for log in sorted(glob.glob("/verif/out/eval-*.log")):
         if not m:
             continue
         name, prop, old, tests, demo, rc, first, classes = m.groups()
-        rec = {"property_checked": prop, "check_exit": int(rc), "caught": rc == "1", "first_violating_run": int(first) if first else None,
+        rec = {"property_checked": prop, "check_exit": int(rc), "caught": rc == "1" or bool(classes.strip()), "first_violating_run": int(first) if first else None,
                "violation_classes": [c for c in classes.split(";") if c]}
         if tests:
             rec["test_suite"] = tests
@@ -45,7 +45,7 @@ for d in sorted(os.listdir(root)):
         rows.append("| %s | %s | %s | %s | %s | %s |" % (
             d, p, (meta.get("title") or "")[:110].replace("|", "/"), r.get("test_suite", "?"),
             ("caught" if b["caught"] else "MISSED") if b else "-",
-            ("caught (run %s): %s" % (r["first_violating_run"], "; ".join(r["violation_classes"][:2])) if r["caught"] else "MISSED")))
+            ("caught (run %s): %s" % (r["first_violating_run"], "; ".join(r["violation_classes"][:2])) if r["caught"] else "MISSED") + ((" - " + meta["note"]) if meta.get("note") else "")))
 print("| change | check | what it does | suite | before strengthening | final checks |")
 print("|---|---|---|---|---|---|")
 print("\n".join(rows))
